@@ -8,7 +8,7 @@ ROOT="$(cd "$(dirname "$0")/.." && pwd)"; cd "$ROOT" && . scripts/goenv.sh
 wt=$(mktemp -d /tmp/mut.XXXXXX)
 git -C /repo worktree add -q --detach "$wt/repo" HEAD || exit 2
 trap 'git -C /repo worktree remove --force "$wt/repo" >/dev/null 2>&1; rm -rf "$wt"' EXIT
-git -C "$wt/repo" apply "$patch" || { echo "patch does not apply"; exit 2; }
+git -C "$wt/repo" apply "$patch" 2>/dev/null || git -C "$wt/repo" apply --3way "$patch" >/dev/null 2>&1 || { echo "patch does not apply"; exit 2; }
 ( cd "$wt/repo" && "$VGO" build ./... && "$VGO" test -count=1 ./... >"$wt/suite.log" 2>&1 ) ; suite=$?
 if [ $suite -ne 0 ]; then echo "SUITE-FAILS (mutant not admissible)"; tail -5 "$wt/suite.log"; exit 3; fi
 rc=0
